@@ -69,6 +69,19 @@ def run_group(gname, tier, seed):
         extra = [e.result() for e in extra]
     am = vlib.analyse(built["main"], main)
     ac = vlib.analyse(built["canary"], can)
+    # proof hints are optional accelerators: a hint that no longer holds is removed and the
+    # obligations are re-checked without it, so a failed hint is never itself a violation
+    dropped = set()
+    for _ in range(3):
+        hf = set((f["clause_unit"], f["clause"]) for f in am["failures"] if f.get("clause_kind") == "at") - dropped
+        if not hf:
+            break
+        dropped |= hf
+        a2, p2 = vlib.rebuild_without_hints(built, dropped)
+        main = vlib.run_verus(p2)
+        built["main"] = a2
+        am = vlib.analyse(a2, main)
+    am["hints_dropped"] = sorted("%s @ %s" % x for x in dropped)
     stab = [vlib.analyse(built["main"], e) for e in extra]
     return {"built": built, "main": main, "am": am, "can": can, "ac": ac, "stab": stab, "wall": time.time() - t0}
 
@@ -90,7 +103,7 @@ def main():
         return 2
     spec = props[pid]
     known = [k for k in load_known() if k.get("property") == pid]
-    evidence_path = os.path.join(ROOT, "evidence", pid + ".json")
+    evidence_path = os.path.join(os.environ.get("VERIF_EVIDENCE_DIR", os.path.join(ROOT, "evidence")), pid + ".json")
     os.makedirs(os.path.dirname(evidence_path), exist_ok=True)
     undecided = []
     failures = []
@@ -113,7 +126,7 @@ def main():
         built = r["built"]
         am, ac = r["am"], r["ac"]
         checker_cmds.append(r["main"]["cmd"])
-        groups_out[gname] = {"wall_s": round(r["wall"], 2), "verified": am.get("verified"), "errors": am.get("errors")}
+        groups_out[gname] = {"wall_s": round(r["wall"], 2), "verified": am.get("verified"), "errors": am.get("errors"), "hints_dropped": am.get("hints_dropped", [])}
         for u in am["undecided"]:
             undecided.append("%s: %s" % (gname, u))
         obs = obligations_for(pid, built)
